@@ -7,6 +7,199 @@ use vstd::std_specs::cmp::*;
 use vstd::float::*;
 use vstd::std_specs::iter::IteratorSpec;
 verus! {
+// ---- prelude fragment: floats.rs ----
+// Floating point, layer 1 ("uninterpreted" mode of DESIGN.md 3.2): every f64 operator instance the
+// language can produce is linked to ONE total, deterministic, otherwise unknown function of the
+// operand values.  Nothing about IEEE-754 is assumed here.
+pub uninterp spec fn fadd(a: f64, b: f64) -> f64;
+pub uninterp spec fn fsub(a: f64, b: f64) -> f64;
+pub uninterp spec fn fmul(a: f64, b: f64) -> f64;
+pub uninterp spec fn fdiv(a: f64, b: f64) -> f64;
+pub uninterp spec fn fneg(a: f64) -> f64;
+pub uninterp spec fn fcmp(a: f64, b: f64) -> Option<core::cmp::Ordering>;
+pub uninterp spec fn feq(a: f64, b: f64) -> bool;
+pub open spec fn flt(a: f64, b: f64) -> bool { fcmp(a, b) == Some(core::cmp::Ordering::Less) }
+pub open spec fn fgt(a: f64, b: f64) -> bool { fcmp(a, b) == Some(core::cmp::Ordering::Greater) }
+pub open spec fn fle(a: f64, b: f64) -> bool { fcmp(a, b) == Some(core::cmp::Ordering::Less) || fcmp(a, b) == Some(core::cmp::Ordering::Equal) }
+pub open spec fn fge(a: f64, b: f64) -> bool { fcmp(a, b) == Some(core::cmp::Ordering::Greater) || fcmp(a, b) == Some(core::cmp::Ordering::Equal) }
+
+pub broadcast axiom fn ax_add_vv_req(a: f64, b: f64) ensures #[trigger] a.add_req(b);
+pub broadcast axiom fn ax_add_vv(a: f64, b: f64) ensures #[trigger] a.add_spec(b) == fadd(a, b);
+pub broadcast axiom fn ax_add_vr_req(a: f64, b: &f64) ensures #[trigger] a.add_req(b);
+pub broadcast axiom fn ax_add_vr(a: f64, b: &f64) ensures #[trigger] a.add_spec(b) == fadd(a, *b);
+pub broadcast axiom fn ax_add_rv_req(a: &f64, b: f64) ensures #[trigger] a.add_req(b);
+pub broadcast axiom fn ax_add_rv(a: &f64, b: f64) ensures #[trigger] a.add_spec(b) == fadd(*a, b);
+pub broadcast axiom fn ax_add_rr_req(a: &f64, b: &f64) ensures #[trigger] a.add_req(b);
+pub broadcast axiom fn ax_add_rr(a: &f64, b: &f64) ensures #[trigger] a.add_spec(b) == fadd(*a, *b);
+pub broadcast axiom fn ax_sub_vv_req(a: f64, b: f64) ensures #[trigger] a.sub_req(b);
+pub broadcast axiom fn ax_sub_vv(a: f64, b: f64) ensures #[trigger] a.sub_spec(b) == fsub(a, b);
+pub broadcast axiom fn ax_sub_vr_req(a: f64, b: &f64) ensures #[trigger] a.sub_req(b);
+pub broadcast axiom fn ax_sub_vr(a: f64, b: &f64) ensures #[trigger] a.sub_spec(b) == fsub(a, *b);
+pub broadcast axiom fn ax_sub_rv_req(a: &f64, b: f64) ensures #[trigger] a.sub_req(b);
+pub broadcast axiom fn ax_sub_rv(a: &f64, b: f64) ensures #[trigger] a.sub_spec(b) == fsub(*a, b);
+pub broadcast axiom fn ax_sub_rr_req(a: &f64, b: &f64) ensures #[trigger] a.sub_req(b);
+pub broadcast axiom fn ax_sub_rr(a: &f64, b: &f64) ensures #[trigger] a.sub_spec(b) == fsub(*a, *b);
+pub broadcast axiom fn ax_mul_vv_req(a: f64, b: f64) ensures #[trigger] a.mul_req(b);
+pub broadcast axiom fn ax_mul_vv(a: f64, b: f64) ensures #[trigger] a.mul_spec(b) == fmul(a, b);
+pub broadcast axiom fn ax_mul_vr_req(a: f64, b: &f64) ensures #[trigger] a.mul_req(b);
+pub broadcast axiom fn ax_mul_vr(a: f64, b: &f64) ensures #[trigger] a.mul_spec(b) == fmul(a, *b);
+pub broadcast axiom fn ax_mul_rv_req(a: &f64, b: f64) ensures #[trigger] a.mul_req(b);
+pub broadcast axiom fn ax_mul_rv(a: &f64, b: f64) ensures #[trigger] a.mul_spec(b) == fmul(*a, b);
+pub broadcast axiom fn ax_mul_rr_req(a: &f64, b: &f64) ensures #[trigger] a.mul_req(b);
+pub broadcast axiom fn ax_mul_rr(a: &f64, b: &f64) ensures #[trigger] a.mul_spec(b) == fmul(*a, *b);
+pub broadcast axiom fn ax_div_vv_req(a: f64, b: f64) ensures #[trigger] a.div_req(b);
+pub broadcast axiom fn ax_div_vv(a: f64, b: f64) ensures #[trigger] a.div_spec(b) == fdiv(a, b);
+pub broadcast axiom fn ax_div_vr_req(a: f64, b: &f64) ensures #[trigger] a.div_req(b);
+pub broadcast axiom fn ax_div_vr(a: f64, b: &f64) ensures #[trigger] a.div_spec(b) == fdiv(a, *b);
+pub broadcast axiom fn ax_div_rv_req(a: &f64, b: f64) ensures #[trigger] a.div_req(b);
+pub broadcast axiom fn ax_div_rv(a: &f64, b: f64) ensures #[trigger] a.div_spec(b) == fdiv(*a, b);
+pub broadcast axiom fn ax_div_rr_req(a: &f64, b: &f64) ensures #[trigger] a.div_req(b);
+pub broadcast axiom fn ax_div_rr(a: &f64, b: &f64) ensures #[trigger] a.div_spec(b) == fdiv(*a, *b);
+pub broadcast axiom fn ax_cmp_v(a: f64, b: f64) ensures #[trigger] a.partial_cmp_spec(&b) == fcmp(a, b);
+pub broadcast axiom fn ax_eq_v(a: f64, b: f64) ensures #[trigger] a.eq_spec(&b) == feq(a, b);
+pub broadcast axiom fn ax_cmp_r(a: &f64, b: &f64) ensures #[trigger] a.partial_cmp_spec(&b) == fcmp(*a, *b);
+pub broadcast axiom fn ax_eq_r(a: &f64, b: &f64) ensures #[trigger] a.eq_spec(&b) == feq(*a, *b);
+// IEEE facts about comparison that do not depend on the operands' values (discharged for ALL pairs of
+// f64 by the loop-free Kani harness `ieee_cmp_flip`): a < b  <=>  b > a, equality is symmetric, an
+// unordered pair is unordered both ways; == agrees with partial_cmp.
+pub axiom fn ax_obeys()
+    ensures
+        forall|a: f64, b: f64| (#[trigger] fcmp(a, b) == Some(core::cmp::Ordering::Less)) == (fcmp(b, a) == Some(core::cmp::Ordering::Greater)),
+        forall|a: f64, b: f64| (#[trigger] fcmp(a, b) == Some(core::cmp::Ordering::Equal)) == (fcmp(b, a) == Some(core::cmp::Ordering::Equal)),
+        forall|a: f64, b: f64| (#[trigger] fcmp(a, b) is None) == (fcmp(b, a) is None),
+        forall|a: f64, b: f64| #[trigger] feq(a, b) == (fcmp(a, b) == Some(core::cmp::Ordering::Equal)),
+        // max / min are commutative as far as comparisons can tell (the two results are identical, or +0 / -0,
+        // or both NaN): discharged for ALL triples by the loop-free Kani harness `ieee_max_min_commute`
+        forall|a: f64, b: f64, c: f64| #[trigger] fcmp(fmaxf(a, b), c) == fcmp(fmaxf(b, a), c),
+        forall|a: f64, b: f64, c: f64| #[trigger] fcmp(c, fmaxf(a, b)) == fcmp(c, fmaxf(b, a)),
+        forall|a: f64, b: f64, c: f64| #[trigger] fcmp(fminf(a, b), c) == fcmp(fminf(b, a), c),
+        forall|a: f64, b: f64, c: f64| #[trigger] fcmp(c, fminf(a, b)) == fcmp(c, fminf(b, a)),
+        <f64 as AddSpec<f64>>::obeys_add_spec(),
+        <f64 as AddSpec<&f64>>::obeys_add_spec(),
+        <&f64 as AddSpec<f64>>::obeys_add_spec(),
+        <&f64 as AddSpec<&f64>>::obeys_add_spec(),
+        <f64 as SubSpec<f64>>::obeys_sub_spec(),
+        <f64 as SubSpec<&f64>>::obeys_sub_spec(),
+        <&f64 as SubSpec<f64>>::obeys_sub_spec(),
+        <&f64 as SubSpec<&f64>>::obeys_sub_spec(),
+        <f64 as MulSpec<f64>>::obeys_mul_spec(),
+        <f64 as MulSpec<&f64>>::obeys_mul_spec(),
+        <&f64 as MulSpec<f64>>::obeys_mul_spec(),
+        <&f64 as MulSpec<&f64>>::obeys_mul_spec(),
+        <f64 as DivSpec<f64>>::obeys_div_spec(),
+        <f64 as DivSpec<&f64>>::obeys_div_spec(),
+        <&f64 as DivSpec<f64>>::obeys_div_spec(),
+        <&f64 as DivSpec<&f64>>::obeys_div_spec(),
+        <f64 as PartialOrdSpec<f64>>::obeys_partial_cmp_spec(),
+        <f64 as PartialEqSpec<f64>>::obeys_eq_spec(),
+        <&f64 as PartialOrdSpec<&f64>>::obeys_partial_cmp_spec(),
+        <&f64 as PartialEqSpec<&f64>>::obeys_eq_spec(),
+;
+pub broadcast group fl {
+    ax_add_vv_req, ax_add_vv, ax_add_vr_req, ax_add_vr, ax_add_rv_req, ax_add_rv, ax_add_rr_req, ax_add_rr, ax_sub_vv_req, ax_sub_vv, ax_sub_vr_req, ax_sub_vr, ax_sub_rv_req, ax_sub_rv, ax_sub_rr_req, ax_sub_rr, ax_mul_vv_req, ax_mul_vv, ax_mul_vr_req, ax_mul_vr, ax_mul_rv_req, ax_mul_rv, ax_mul_rr_req, ax_mul_rr, ax_div_vv_req, ax_div_vv, ax_div_vr_req, ax_div_vr, ax_div_rv_req, ax_div_rv, ax_div_rr_req, ax_div_rr, ax_cmp_v, ax_eq_v, ax_cmp_r, ax_eq_r
+}
+
+// R8: unary minus (this Verus rejects float negation); the wrapper IS the operator.
+// (core implements Neg for f64 and for &f64: the wrapper takes either)
+pub trait __NegArg: Sized { spec fn negv(self) -> f64; }
+impl __NegArg for f64 { open spec fn negv(self) -> f64 { self } }
+impl<'a> __NegArg for &'a f64 { open spec fn negv(self) -> f64 { *self } }
+#[verifier::external_body]
+pub fn __neg<T: __NegArg>(x: T) -> (r: f64)
+    ensures r == fneg(x.negv()),
+{ unimplemented!() }
+
+
+// f64 methods used by the extracted code: linked to uninterpreted functions (their IEEE facts, where
+// a proof needs one, are separate axioms discharged by loop-free Kani harnesses).
+pub uninterp spec fn fmaxf(a: f64, b: f64) -> f64;
+pub uninterp spec fn fminf(a: f64, b: f64) -> f64;
+pub uninterp spec fn fabsf(a: f64) -> f64;
+pub uninterp spec fn fisnan(a: f64) -> bool;
+pub uninterp spec fn fisfinite(a: f64) -> bool;
+pub uninterp spec fn fisinfinite(a: f64) -> bool;
+// IEEE classification facts (discharged for ALL f64 / all pairs by the loop-free Kani harness
+// `ieee_classification`): finite <=> neither NaN nor infinite; NaN and infinite exclude each other;
+// a pair is unordered exactly when one side is NaN; 0.0 is finite.
+pub axiom fn ax_ieee_class()
+    ensures
+        forall|a: f64| #[trigger] fisfinite(a) == (!fisnan(a) && !fisinfinite(a)),
+        forall|a: f64| #[trigger] fisnan(a) ==> !fisinfinite(a),
+        forall|a: f64, b: f64| (#[trigger] fcmp(a, b) is None) == (fisnan(a) || fisnan(b)),
+        fisfinite(0.0f64),
+        // (core::cmp::Ordering has exactly three variants: the Rust enum, opaque to this Verus)
+        forall|a: f64, b: f64| #[trigger] fcmp(a, b) is None || fcmp(a, b) == Some(core::cmp::Ordering::Less)
+            || fcmp(a, b) == Some(core::cmp::Ordering::Equal) || fcmp(a, b) == Some(core::cmp::Ordering::Greater);
+pub uninterp spec fn fpowf(a: f64, b: f64) -> f64;
+pub uninterp spec fn ftotalcmp(a: f64, b: f64) -> core::cmp::Ordering;
+pub assume_specification [f64::max] (a: f64, b: f64) -> (r: f64) ensures r == fmaxf(a, b);
+pub assume_specification [f64::min] (a: f64, b: f64) -> (r: f64) ensures r == fminf(a, b);
+pub assume_specification [f64::abs] (a: f64) -> (r: f64) ensures r == fabsf(a);
+pub assume_specification [f64::is_nan] (a: f64) -> (r: bool) ensures r == fisnan(a);
+pub assume_specification [f64::is_finite] (a: f64) -> (r: bool) ensures r == fisfinite(a);
+pub assume_specification [f64::is_infinite] (a: f64) -> (r: bool) ensures r == fisinfinite(a);
+// further classification / sign predicates: deterministic functions about which nothing else is known
+// (code that switches to one of them no longer verifies against a contract stated with `>`, `is_finite`, ...)
+pub uninterp spec fn fisnormal(a: f64) -> bool;
+pub uninterp spec fn fissubnormal(a: f64) -> bool;
+pub uninterp spec fn fissignpos(a: f64) -> bool;
+pub uninterp spec fn fissignneg(a: f64) -> bool;
+pub assume_specification [f64::is_normal] (a: f64) -> (r: bool) ensures r == fisnormal(a);
+pub assume_specification [f64::is_subnormal] (a: f64) -> (r: bool) ensures r == fissubnormal(a);
+pub assume_specification [f64::is_sign_positive] (a: f64) -> (r: bool) ensures r == fissignpos(a);
+pub assume_specification [f64::is_sign_negative] (a: f64) -> (r: bool) ensures r == fissignneg(a);
+pub assume_specification [f64::powf] (a: f64, b: f64) -> (r: f64) ensures r == fpowf(a, b);
+pub assume_specification [f64::total_cmp] (a: &f64, b: &f64) -> (r: core::cmp::Ordering) ensures r == ftotalcmp(*a, *b);
+
+// R9: associated constants this Verus rejects; the wrappers' bodies ARE the constants.
+pub uninterp spec fn finf() -> f64;
+pub uninterp spec fn fneginf() -> f64;
+#[verifier::external_body]
+pub fn __inf() -> (r: f64) ensures r == finf() { f64::INFINITY }
+#[verifier::external_body]
+pub fn __neg_inf() -> (r: f64) ensures r == fneginf() { f64::NEG_INFINITY }
+pub assume_specification [core::cmp::Ordering::is_lt] (o: core::cmp::Ordering) -> (r: bool) ensures r == (o == core::cmp::Ordering::Less);
+pub assume_specification [core::cmp::Ordering::is_le] (o: core::cmp::Ordering) -> (r: bool) ensures r == (o != core::cmp::Ordering::Greater);
+pub assume_specification [core::cmp::Ordering::is_gt] (o: core::cmp::Ordering) -> (r: bool) ensures r == (o == core::cmp::Ordering::Greater);
+pub assume_specification [core::cmp::Ordering::is_ge] (o: core::cmp::Ordering) -> (r: bool) ensures r == (o != core::cmp::Ordering::Less);
+pub uninterp spec fn fconst_EPSILON() -> f64;
+#[verifier::external_body]
+pub fn __f64_EPSILON() -> (r: f64) ensures r == fconst_EPSILON() { f64::EPSILON }
+pub uninterp spec fn fconst_MAX() -> f64;
+#[verifier::external_body]
+pub fn __f64_MAX() -> (r: f64) ensures r == fconst_MAX() { f64::MAX }
+pub uninterp spec fn fconst_MIN() -> f64;
+#[verifier::external_body]
+pub fn __f64_MIN() -> (r: f64) ensures r == fconst_MIN() { f64::MIN }
+pub uninterp spec fn fconst_MIN_POSITIVE() -> f64;
+#[verifier::external_body]
+pub fn __f64_MIN_POSITIVE() -> (r: f64) ensures r == fconst_MIN_POSITIVE() { f64::MIN_POSITIVE }
+pub uninterp spec fn fconst_NAN() -> f64;
+#[verifier::external_body]
+pub fn __f64_NAN() -> (r: f64) ensures r == fconst_NAN() { f64::NAN }
+
+// R12: integer-to-float casts (`X as f64`), which this Verus rejects; the wrapper IS the cast.
+pub uninterp spec fn u64_to_f64(n: u64) -> f64;
+pub uninterp spec fn usize_to_f64(n: usize) -> f64;
+pub trait ToF64: Sized {
+    spec fn to_f64_spec(self) -> f64;
+    fn __to_f64(self) -> (r: f64) ensures r == self.to_f64_spec();
+}
+impl ToF64 for u64 {
+    open spec fn to_f64_spec(self) -> f64 { u64_to_f64(self) }
+    #[verifier::external_body]
+    fn __to_f64(self) -> (r: f64) { self as f64 }
+}
+impl ToF64 for usize {
+    open spec fn to_f64_spec(self) -> f64 { usize_to_f64(self) }
+    #[verifier::external_body]
+    fn __to_f64(self) -> (r: f64) { self as f64 }
+}
+pub fn __as_f64<T: ToF64>(x: T) -> (r: f64) ensures r == x.to_f64_spec() { x.__to_f64() }
+
+// R13: identity on f64 (see rule R13 of the extractor)
+pub fn __idf(x: f64) -> (r: f64) ensures r == x { x }
+
 // ---- extracted from src/solve/data.rs: struct RegretParams ----
 #[derive(Clone, Copy)]
 pub struct RegretParams {
@@ -176,7 +369,7 @@ fn advance<const FIRST: bool>(&mut self, it: u64, params: &RegretParams) -> (r: 
 pub proof fn __canary_must_fail()
     ensures false, // @ob __canary
 {
-    
+    broadcast use fl; ax_obeys();
 }
 
 } // verus!
